@@ -36,7 +36,7 @@ enum Fail {
 fn vfail(o: VO) -> Fail {
     match o {
         VO::Valid => Fail::None,
-        VO::Silent | VO::ChallengeThenSilent => Fail::Timeout,
+        VO::Silent | VO::ChallengeThenSilent | VO::Partial => Fail::Timeout,
         VO::Malformed => Fail::Other,
     }
 }
@@ -44,7 +44,7 @@ fn vfail(o: VO) -> Fail {
 fn ufail(o: GO) -> Fail {
     match o {
         GO::Valid => Fail::None,
-        GO::Silent => Fail::Timeout,
+        GO::Silent | GO::Partial => Fail::Timeout,
         GO::Malformed => Fail::Other,
     }
 }
@@ -176,9 +176,10 @@ impl Prop for C11 {
                     extra: Some(gamedig::protocols::types::ExtraRequestSettings {
                         hostname: None,
                         protocol_version: None,
-                        gather_players: Some(pt),
-                        gather_rules: Some(rt),
-                        check_app_id: Some(check),
+                        // a setting left out means the documented default (Try / Try / check on)
+                        gather_players: if pt == GatherToggle::Try && t.draw(CFG, 2) == 0 { None } else { Some(pt) },
+                        gather_rules: if rt == GatherToggle::Try && t.draw(CFG, 2) == 0 { None } else { Some(rt) },
+                        check_app_id: if check && t.draw(CFG, 2) == 0 { None } else { Some(check) },
                     }),
                     level: 2,
                 }
